@@ -220,10 +220,13 @@ async function op_write(req) {
     // req: {table, delim, policy, line_separator, encoding, header}
     let sink = new CollectWritable();
     let result = {};
+    let table = req.revive ? req.table.map(revive) : req.table;
+    // the language's own text of every cell (String(value), arrays element by element), taken before the writer sees the table
+    let texts = req.want_texts ? table.map((r) => r.map((v) => Array.isArray(v) ? v.map((x) => String(x)) : String(v))) : undefined;
     try {
         let w = new rbql_csv.CSVWriter(sink, true, req.encoding, req.delim, req.policy, req.line_separator === undefined ? '\n' : req.line_separator);
         if (req.header) w.set_header(req.header);
-        for (let rec of req.table) {
+        for (let rec of table) {
             await w.write(rec.slice());
         }
         await w.finish();
@@ -232,6 +235,7 @@ async function op_write(req) {
     } catch (e) {
         result = {bytes_hex: Buffer.concat(sink.parts).toString('hex'), warnings: [], error: err_info(e)};
     }
+    result.texts = texts;
     return result;
 }
 
@@ -453,7 +457,7 @@ async function op_like_cross(req) {
 async function op_roundtrip(c) {
     // JS writer -> bytes -> JS bulk reader
     let w = await op_write(c);
-    let out = {bytes_hex: w.bytes_hex, wwarnings: w.warnings, werror: w.error, records: null, rwarnings: [], rerror: null};
+    let out = {bytes_hex: w.bytes_hex, wwarnings: w.warnings, werror: w.error, records: null, rwarnings: [], rerror: null, texts: w.texts};
     if (w.error === null) {
         let r = await op_read({bytes_hex: w.bytes_hex, chunks: c.stream_chunks || null, encoding: c.encoding, delim: c.delim, policy: c.policy, has_header: false, comment_prefix: null});
         out.records = r.records; out.rwarnings = r.warnings; out.rerror = r.error;
